@@ -1,0 +1,193 @@
+//go:build verif
+// +build verif
+
+package server
+
+// Add-only exports for the verification harness in /verif (build tag verif),
+// properties C18/C19/C23: a Manager and a Session constructed offline (no
+// listener, no handshake), injection of connection pools into the slices of a
+// namespace, and a snapshot/restore of the connection bookkeeping of a
+// session.  Nothing here is compiled without the tag.
+
+import (
+	"net"
+	"time"
+
+	"github.com/XiaoMi/Gaea/backend"
+	"github.com/XiaoMi/Gaea/log"
+	"github.com/XiaoMi/Gaea/models"
+	"github.com/XiaoMi/Gaea/mysql"
+	"github.com/XiaoMi/Gaea/util"
+)
+
+// VerifC18NewManager builds a Manager holding one namespace, as CreateManager
+// does, but with the given logger as general (SQL) logger instead of log files.
+func VerifC18NewManager(proxyCfg *models.Proxy, nsCfg *models.Namespace, lg log.Logger) (*Manager, error) {
+	m := NewManager()
+	sm := NewStatisticManager()
+	sm.manager = m
+	sm.clusterName = proxyCfg.Cluster
+	sm.SQLResponsePercentile = make(map[string]*SQLResponse)
+	sm.CPUNums = proxyCfg.NumCPU
+	if err := sm.Init(proxyCfg); err != nil {
+		return nil, err
+	}
+	sm.generalLogger = lg
+	m.statistics = sm
+
+	current, _, _ := m.switchIndex.Get()
+	cfgs := map[string]*models.Namespace{nsCfg.Name: nsCfg}
+	m.namespaces[current] = CreateNamespaceManager(proxyCfg.ServerIdc, cfgs)
+	um, err := CreateUserManager(cfgs)
+	if err != nil {
+		return nil, err
+	}
+	m.users[current] = um
+	return m, nil
+}
+
+// VerifC18InstallPools replaces the connection pool of every business node
+// (master, slaves) of every slice of the namespace currently served under
+// `name` by mk(slice name, "m"|"s", node index, address), and returns the
+// namespace change index.
+func VerifC18InstallPools(m *Manager, name string, mk func(slice, role string, idx int, addr string) backend.ConnectionPool) uint32 {
+	ns := m.GetNamespace(name)
+	for sn, s := range ns.slices {
+		if s.Master != nil {
+			for i, n := range s.Master.Nodes {
+				n.ConnPool = mk(sn, "m", i, n.Address)
+			}
+		}
+		if s.Slave != nil {
+			for i, n := range s.Slave.Nodes {
+				n.ConnPool = mk(sn, "s", i, n.Address)
+			}
+		}
+	}
+	return ns.namespaceChangeIndex
+}
+
+// VerifC18SetMaxExecTime sets the statement timeout (ms, 0 = none) of the
+// namespace currently served under `name`.
+func VerifC18SetMaxExecTime(m *Manager, name string, ms int) {
+	m.GetNamespace(name).maxSqlExecuteTime = ms
+}
+
+// VerifC18NewServer returns a Server good enough for Session.Run: manager,
+// time wheel, session timeout, version status; no listener, no admin server.
+func VerifC18NewServer(m *Manager, proxyCfg *models.Proxy) (*Server, error) {
+	s := new(Server)
+	s.ServerConfig = proxyCfg
+	s.manager = m
+	s.ServerVersion = util.CompactServerVersion(proxyCfg.ServerVersion)
+	s.ServerVersionCompareStatus = util.NewVersionCompareStatus(proxyCfg.ServerVersion)
+	s.sessionTimeout = time.Hour
+	tw, err := util.NewTimeWheel(timeWheelUnit, timeWheelBucketsNum)
+	if err != nil {
+		return nil, err
+	}
+	s.tw = tw
+	s.tw.Start()
+	return s, nil
+}
+
+// VerifC18NewSession does what newSession, a successful handshake and onConn
+// do before Session.Run, for an already authenticated user over any net.Conn.
+func VerifC18NewSession(s *Server, co net.Conn, namespace, user, db string) *Session {
+	cc := new(Session)
+	cc.c = NewClientConn(mysql.NewConn(co), s.manager)
+	cc.proxy = s
+	cc.manager = s.manager
+	cc.c.SetConnectionID(1)
+	cc.c.proxy = s
+	cc.c.capability = DefaultCapability &^ mysql.ClientMultiStatements
+
+	cc.executor = newSessionExecutor(s.manager)
+	cc.executor.clientAddr = "127.0.0.1:1"
+	cc.closed.Store(false)
+	cc.executor.session = cc
+
+	cc.executor.user = user
+	cc.executor.SetCollationID(mysql.DefaultCollationID)
+	cc.executor.SetCharset(mysql.DefaultCharset)
+	cc.executor.SetDatabase(db)
+	cc.namespace = namespace
+	cc.executor.namespace = namespace
+	cc.c.namespace = namespace
+	cc.executor.SetContextNamespace()
+
+	cc.executor.keepSession = cc.getNamespace().setForKeepSession
+	cc.executor.userPriv = cc.getNamespace().userProperties[user].RWFlag
+	cc.executor.userType = cc.getNamespace().userProperties[user].OtherProperty
+	return cc
+}
+
+// VerifC18Snap is the connection bookkeeping of a session.
+type VerifC18Snap struct {
+	Status           uint16
+	TxConns          map[string]backend.PooledConnect
+	KsConns          map[string]backend.PooledConnect
+	Savepoints       []string
+	ContinueConn     backend.PooledConnect
+	Closed           bool
+	NsChangeIndexOld uint32
+	NsChangeIndexCtx uint32
+	ctxNamespace     *Namespace
+	db               string
+}
+
+func copyConns(m map[string]backend.PooledConnect, order []string) map[string]backend.PooledConnect {
+	out := make(map[string]backend.PooledConnect, len(m))
+	for _, k := range order {
+		if v, ok := m[k]; ok {
+			out[k] = v
+		}
+	}
+	for k, v := range m {
+		if _, ok := out[k]; !ok {
+			out[k] = v
+		}
+	}
+	return out
+}
+
+// VerifC18Snapshot copies the bookkeeping of the session (to be called while
+// Session.Run is blocked reading the next command, or after it returned).
+func VerifC18Snapshot(cc *Session) *VerifC18Snap {
+	se := cc.executor
+	return &VerifC18Snap{
+		Status:           se.status,
+		TxConns:          copyConns(se.txConns, nil),
+		KsConns:          copyConns(se.ksConns, nil),
+		Savepoints:       append([]string{}, se.savepoints...),
+		ContinueConn:     cc.continueConn,
+		Closed:           cc.IsClosed(),
+		NsChangeIndexOld: se.nsChangeIndexOld,
+		NsChangeIndexCtx: se.contextNamespace.namespaceChangeIndex,
+		ctxNamespace:     se.contextNamespace,
+		db:               se.db,
+	}
+}
+
+// VerifC18Restore puts a snapshot back.  The two connection maps are rebuilt
+// by inserting the keys in `order` first.  If co is not nil the client
+// connection is replaced (needed after the session closed its connection).
+func VerifC18Restore(cc *Session, sn *VerifC18Snap, order []string, co net.Conn) {
+	se := cc.executor
+	se.status = sn.Status
+	se.txConns = copyConns(sn.TxConns, order)
+	se.ksConns = copyConns(sn.KsConns, order)
+	se.savepoints = append([]string{}, sn.Savepoints...)
+	cc.continueConn = sn.ContinueConn
+	cc.closed.Store(sn.Closed)
+	se.nsChangeIndexOld = sn.NsChangeIndexOld
+	se.contextNamespace = sn.ctxNamespace
+	se.db = sn.db
+	if co != nil {
+		cc.c = NewClientConn(mysql.NewConn(co), cc.manager)
+		cc.c.SetConnectionID(1)
+		cc.c.proxy = cc.proxy
+		cc.c.capability = DefaultCapability &^ mysql.ClientMultiStatements
+		cc.c.namespace = cc.namespace
+	}
+}
